@@ -30,6 +30,7 @@ var (
 	SBool = Sort{K: KBool}
 	SG    = Sort{K: KU, Name: "G"}
 	SStr  = Sort{K: KU, Name: "Str"}
+	STr   = Sort{K: KU, Name: "Tr"}
 	SF    = Sort{K: KF, Name: "P"} // element of F_p (printed as Int)
 	SN    = Sort{K: KF, Name: "N"} // element of Z_n (printed as Int)
 )
@@ -230,6 +231,13 @@ func Ite(c, a, b *Term) *Term {
 	}
 	if c.IsFalse() {
 		return b
+	}
+	// nested tests of the same condition
+	for a.op == "ite" && a.args[0] == c {
+		a = a.args[1]
+	}
+	for b.op == "ite" && b.args[0] == c {
+		b = b.args[2]
 	}
 	if a == b {
 		return a
